@@ -46,16 +46,27 @@ def run(rep, tier):
     from props import ctrl_obl
     from engine import E2
     e = E2(rep, tier)
-    sizes = [(8, 3), (6, 4)] if tier == "quick" else [(8, 3), (6, 4), (10, 4), (16, 3), (6, 5)]
+    sizes = [(8, 3), (6, 4), (12, 3), (5, 5)] if tier == "quick" else [(8, 3), (6, 4), (12, 3), (5, 5), (10, 4), (24, 3), (6, 5), (8, 4)]
     rep.bounds["(segments,history)_mir"] = [list(x) for x in sizes]
-    ctrl_obl.evaluator_obligations(e, sizes, real=True)
     ctrl_obl.evaluator_obligations(e, [(2, 2), (3, 2)], real=False)
     e.finish()
+    import parallel
+    parallel.run_parts(rep, tier, ["ev:%d:%d" % (n, q) for (n, q) in sorted(sizes, key=lambda t: -(t[0] ** t[1]))],
+                       mir_text=e.mir_text, sources=e.sources)
     if tier == "thorough":
         obs = run_e1(rep, state_specs(), hook=True)
         ok = [o for o in obs if o.status == "discharged"]
         rep.notes.append("history-independence of the evaluator state: %d/%d auxiliary harnesses discharged%s" % (
             len(ok), len(obs), "" if len(ok) == len(obs) else " -- NOT established; the claim is limited to the listed history lengths"))
+
+
+def run_part(rep, tier, part):
+    from props import ctrl_obl
+    from engine import E2
+    _, n, q = part.split(":")
+    e = E2(rep, tier)
+    ctrl_obl.evaluator_obligations(e, [(int(n), int(q))], real=True)
+    e.finish()
 
 
 def replay(path):
